@@ -5,6 +5,7 @@ from vc.symex import Ptr, BV, MemView, Ctx
 from . import calendar as cal
 from .calendar import ld_fields, lt_fields, ldt_fields, ld_is_error, lt_is_error, ldt_is_error
 from . import zoned
+from . import reg as _reg
 
 # The ghost output stream is a python list in st.ghost['out']; items are
 #   8-bit terms (one character), ('dec', v) for the decimal numeral of an integer outside the 4-digit case,
@@ -71,8 +72,13 @@ contract('ace_common::printPad2To(Print&, unsigned short, char)', extern=True, m
          note='ASSUMED (AceCommon): two characters for val < 100, padded with the given character')
 
 
+def STRLEN(ex):
+    """ghost: length of the NUL-terminated string at an address (the parsers write no memory, so it is a function of the address)"""
+    return z3.Function('STRLEN_%d' % ex.pbits, z3.BitVecSort(ex.pbits), z3.BitVecSort(ex.pbits))
+
+
 def _strlen_model(ex, st, c):
-    r = ex.fresh('strlen', 64)
+    r = STRLEN(ex)(ex.ptr_to_bv(c.args[0]))
     st.log.append(('strlen', ex.ptr_to_bv(c.args[0]), [r]))
     return r
 
@@ -228,6 +234,10 @@ def _zdt_print_post(c):
 
 ZDT_PRINT = 'ace_time::ZonedDateTime::printTo(Print&) const'
 contract(ZDT_PRINT, props=['C15'], ensures=_zdt_print_post, assigns=lambda c: [])
+# these postconditions describe the ghost output of their own call: inside an enclosing printTo they are executed in place
+for _n in ('ace_time::LocalDateTime::printTo(Print&) const', 'ace_time::LocalTime::printTo(Print&) const',
+           'ace_time::TimeOffset::printTo(Print&) const', 'ace_time::OffsetDateTime::printTo(Print&) const', ZDT_PRINT):
+    _reg.REG[_n].inline_in_callers = True
 
 # ---- parsers ---------------------------------------------------------------------------------------
 
@@ -363,10 +373,9 @@ contract('ace_time::OffsetDateTime::forDateStringChainable(char const*&)', props
 
 def _short_is_error(minimum, is_err, exact=False):
     def post(c):
-        lens = [e for e in c.log if len(e) == 3 and e[0] == 'strlen']
-        if not lens:
-            return [('length-is-checked', z3.BoolVal(False))]
-        n = lens[0][2][0]
+        # stated over the ghost length of the argument string, so that the clause means the same at a call site as at the function's
+        # own exit (a clause read off the call log would speak about the caller's calls there)
+        n = STRLEN(c.ex)(c.ex.ptr_to_bv(c.args[0]))
         short = (n != minimum) if exact else z3.ULT(n, minimum)
         return [('too-short-parses-to-error', z3.Implies(short, is_err(c.result)))]
     return post
@@ -480,11 +489,14 @@ from vc.symex import Ptr  # noqa: E402
 for _cls, _info in (('ace_time::BasicZoneProcessor', 'ace_time::basic::ZoneInfo'), ('ace_time::ExtendedZoneProcessor', 'ace_time::extended::ZoneInfo')):
     contract(_cls + '::printTo(Print&) const', props=['C15'], requires=lambda c, _cls=_cls: [c.old.field(c.this, _cls, 'mZoneInfo.mZoneInfo') != 0],
              ensures=_proc_print_post(_cls, _info, 'name'), assigns=lambda c: [])
+    _reg.REG[_cls + '::printTo(Print&) const'].inline_in_callers = True
 
 
 # ---- ZonedDateTime::forDateString: the offset date-time parsed by OffsetDateTime::forDateString, in the manual zone of its offset ----
 def _zdt_parse_post(c):
     res, s = c.args
+    if not c.own:
+        return []       # stated through this call's own call to OffsetDateTime::forDateString; nothing is exported to call sites
     calls = [e for e in c.log if e[0] == 'call' and e[1].startswith('ace_time::OffsetDateTime::forDateString')]
     if not calls:
         return [('parses-through-OffsetDateTime-forDateString', z3.BoolVal(False))]
